@@ -35,6 +35,8 @@ def prepare(case, ji, seed):
         kinds.setdefault(p, set()).add(m is not None)
     if any(len(v) > 1 for v in kinds.values()):
         return "path-both-object-and-archive", None
+    if len(set(os.path.normpath(p) for p in kinds)) != len(kinds):
+        return "one-file-under-two-spellings", None
     # a path that is a directory prefix of another cannot exist as a file
     allp = sorted(kinds)
     for a in allp:
